@@ -434,6 +434,14 @@ fn gen_scalar(r: &mut Rng) -> Vec<u8> {
             }
             s
         }
+        9 | 10 => {
+            // mantissa in [2^33, 2^63), unit suffix: most products overflow, by 1 to 30 bits
+            let bits = 33 + r.below(30);
+            let m = (1u64 << bits) | (r.u64() & ((1u64 << bits) - 1));
+            let mut s = if r.chance(1, 2) { format!("-{m}") } else { m.to_string() }.into_bytes();
+            s.push(*r.pick(b"kKmMgG"));
+            s
+        }
         4 => {
             let mut s = r.range(-5000, 5000).to_string().into_bytes();
             if r.chance(1, 2) {
@@ -755,6 +763,11 @@ fn value_corpus() -> Vec<Vec<u8>> {
 fn file_corpus() -> Vec<Vec<u8>> {
     [
         &b"[a]\nk=1\nk=2\n[a]\nk=3\n"[..],
+        // multi-value reads with continued values of OTHER keys in between
+        b"[a]\nx = a\\\nb\nk = c\\\nd\nk = e\n",
+        b"[a]\nk = 1\nx = a\\\n b\\\n c\nk = c\\\nd\nx = y\nk = \\\n\n",
+        b"[a]\nx = a\\\nb\n[a]\nk = c\\\nd\nj\nk = e\\\nf\n",
+        b"[a]\r\nx = \"q \\\r\nr\"\r\nk = c\\\r\nd\r\nK = e\r\n",
         b"[a]\nk=1\n[A]\nk=2\n[a]\nK=3\n",
         b"[a \"b\"]\nk=1\n[a \"B\"]\nk=2\n[A \"b\"]\nk=3\n",
         b"[a.b]\nk=1\n[a \"b\"]\nk=2\n",
@@ -786,6 +799,48 @@ fn file_corpus() -> Vec<Vec<u8>> {
     .iter()
     .map(|s| s.to_vec())
     .collect()
+}
+
+/// Sections that mix a few keys, most of them repeated, many with values continued over several
+/// lines: what the multi-value readers (`raw_values` / `Body::values`) have to keep apart.
+fn gen_multi_file(r: &mut Rng) -> Vec<u8> {
+    let mut out = Vec::new();
+    let keys: [&[u8]; 3] = [b"k", b"x", b"url"];
+    let nsec = 1 + r.usize(2);
+    for si in 0..nsec {
+        out.extend_from_slice(if si == 0 || r.chance(1, 2) { b"[a]\n" } else { b"[a \"s\"]\n" });
+        for _ in 0..2 + r.usize(5) {
+            out.extend_from_slice(pk(r, &[b"", b"\t", b"  "]));
+            let key = keys[r.usize(3)];
+            out.extend_from_slice(key);
+            if r.chance(1, 10) {
+                out.push(b'\n'); // key without `=`
+                continue;
+            }
+            out.extend_from_slice(pk(r, &[b" = ", b"=", b" ="]));
+            let lines = match r.below(4) {
+                0 => 1,
+                1 | 2 => 2,
+                _ => 3 + r.usize(2),
+            };
+            let quoted = r.chance(1, 5);
+            if quoted {
+                out.push(b'"');
+            }
+            for li in 0..lines {
+                out.extend_from_slice(pk(r, &[b"a", b"b c", b"", b"v1", b"x=y", b"z "]));
+                if li + 1 < lines {
+                    out.extend_from_slice(b"\\\n");
+                    out.extend_from_slice(pk(r, &[b"", b" ", b"  "]));
+                }
+            }
+            if quoted {
+                out.push(b'"');
+            }
+            out.push(b'\n');
+        }
+    }
+    out
 }
 
 fn gen_norm_input(r: &mut Rng) -> Vec<u8> {
@@ -883,7 +938,12 @@ fn main() {
     }
     do_value_texts(&mut rep, &sc, &texts);
     // scalars
-    let mut scalars: Vec<Vec<u8>> = ["true", "yes", "on", "false", "no", "off", "", "1", "0", "-1", "2147483647", "2147483648", "-2147483647", "-2147483648", "-2147483649", "2097151k", "2097152k", "1g", "2g", "9223372036854775807", "9223372036854775808", "-9223372036854775807", "-9223372036854775808", "-9223372036854775809", "9007199254740991k", "9007199254740992k", "-9007199254740992k", "-9007199254740993k", "8796093022207m", "8796093022208m", "-8796093022208m", "8589934591g", "8589934592g", "-8589934592g", "-8589934593g", "010", "0x10", "08", " 1", "+1", "1 ", "tRuE", "oFf", "truee", "2k"]
+    let mut scalars: Vec<Vec<u8>> = ["true", "yes", "on", "false", "no", "off", "", "1", "0", "-1", "2147483647", "2147483648", "-2147483647", "-2147483648", "-2147483649", "2097151k", "2097152k", "1g", "2g", "9223372036854775807", "9223372036854775808", "-9223372036854775807", "-9223372036854775808", "-9223372036854775809", "9007199254740991k", "9007199254740992k", "-9007199254740992k", "-9007199254740993k", "8796093022207m", "8796093022208m", "-8796093022208m", "8589934591g", "8589934592g", "-8589934592g", "-8589934593g", "010", "0x10", "08", " 1", "+1", "1 ", "tRuE", "oFf", "truee", "2k",
+        // products that overflow i64 by many bits (mantissa well below 2^63, any unit), both signs
+        "21474836480g", "-21474836480g", "8589934592g", "17179869184g", "4611686018427387904g", "-4611686018427387904g",
+        "70368744177664m", "-70368744177664m", "8796093022208m", "4503599627370496m", "1152921504606846976m",
+        "18014398509481984k", "-18014398509481984k", "9007199254740992k", "4611686018427387904k", "-9223372036854775807k",
+        "12345678901234567g", "-98765432109876543m", "3000000000000000000k"]
         .iter()
         .map(|s| s.as_bytes().to_vec())
         .collect();
@@ -900,7 +960,7 @@ fn main() {
     }
     scalars.sort();
     scalars.dedup();
-    for _ in 0..args.budget(25, 800) {
+    for _ in 0..args.budget(40, 900) {
         scalars.push(gen_scalar(&mut r));
     }
     do_scalars(&mut rep, &sc, &scalars);
@@ -913,6 +973,13 @@ fn main() {
         let st = Style { git_ok: true, plain_ws: i % 2 == 0 };
         let f = gen_config(&mut r, st);
         do_file(&mut rep, &sc, &f, &mut typed);
+    }
+    // several keys, repeated, with continued values: every key's `raw_values` against git's list
+    let mut no_typed = 0u32;
+    for _ in 0..args.budget(40, 1_000) {
+        let f = gen_multi_file(&mut r);
+        rep.bucket("file:multi-continued");
+        do_file(&mut rep, &sc, &f, &mut no_typed);
     }
     rep.finish();
 }
